@@ -48,6 +48,36 @@ CHECKS = {
          "encoding/json decoding is the library's; the harness re-encodes what Go decoded and compares it with the model's input.",
     technique="Coq proof (case analysis + exact dyadic arithmetic on float bits) + extracted-model differential correspondence",
     design="5/C17"),
+ "C10": dict(
+    text="Proof: harvest_bounded (fuel 4*amount+10 is never exhausted, for ANY page graph incl. cycles and endless empties), "
+         "harvest_prefix (for every chunking the deliveries are a prefix of the true sequence + at most one legitimate error item "
+         "that ends the stream), harvest_exact (exactly once, in order, empty continuation at the end), harvest_cont, "
+         "harvest_fuel_mono; load is a universally quantified oracle. Tie: pub.NewCollectionFromObject(...).Harvest with a tagging "
+         "constructor on embedded chains, exhaustive small scope + random; outputs must equal the model.",
+    note="Remote/cyclic chains need the loopback simulator (shared with C02/C03 checks); here a failing page is a reference with an "
+         "unsupported scheme. The goroutine fan-out inside Harvest is modelled sequentially (race-freedom is C08).",
+    technique="Coq proof (induction over requests with a fuel/measure argument) + extracted-model differential correspondence",
+    design="5/C10"),
+ "C11": dict(
+    text="Proof: sp_harvest_correct (a request returns exactly the next q items of the k-way merge after skipping start; the "
+         "continuation denotes the rest; None iff fewer than q were left), sp_exhaustion, merge_perm (every item exactly once), "
+         "merge_step (latest head wins, first source wins ties), merge_order (per-source order kept) - for all sources obeying the "
+         "lazy-list contract harvest_spec. Tie: splicer.Splicer.Harvest over synthetic lazy sources, positions re-harvested and "
+         "interleaved (slice aliasing of clone()), exhaustive small scope + random.",
+    note="harvest_spec is a Section hypothesis (C10 proves it for collections). Position purity is observed on the code, the model is "
+         "purely functional.",
+    technique="Coq proof (replenish invariant + k-way merge refinement) + extracted-model differential correspondence",
+    design="5/C11"),
+ "C19": dict(
+    text="Proof: hex_to_ansi_accepts/spec (for ALL byte strings: accepted iff '#'+6 hex digits, result r;g;b decimal 0..255), "
+         "hex_pair_spec/total, itoa_spec, colour_is_param, accepted_config_safe (non-empty hook, cache>=1, preload>=0, timeout "
+         "without wrap-around, colours valid - the preconditions of C01/C03/C07/C11/C20), rejects, defaults_accepted. Tie: "
+         "generated TOML files through the real parser (in-package shim) and through real process start-up (init() path); thorough "
+         "sweeps all 2^24 colours.",
+    note="TOML syntax/decoding is BurntSushi/toml's (modelled from the typed value table). Duration strings for timeout_seconds are "
+         "the library's and not generated.",
+    technique="Coq proof (byte-level case analysis + int64 range arithmetic) + extracted-model differential correspondence",
+    design="5/C19"),
 }
 PENDING_REASON = "check not built yet in this session (work in progress; planned in DESIGN.md section 5)"
 
